@@ -11,6 +11,7 @@ import (
 	"encoding/binary"
 	"fmt"
 	"net/netip"
+	"strings"
 	"time"
 
 	"github.com/uhppoted/uhppote-core/types"
@@ -183,7 +184,23 @@ func scenarioY(op *spec.Op, path string, maxLen int, lengths bool, burst bool) e
 	return scenarioZ(op, path, maxLen, lengths, burst, 0)
 }
 
+// preludes: calls the same client made before the judged one, each answered with a well-formed reply
+// (or with silence). What a controller said earlier - its firmware version, a v6.62 status with
+// protocol id 0x19, nothing at all - does not change which datagrams the next call accepts.
+var preludes = []string{"GetDevice/v6.62", "GetDevice/v6.99", "GetDevice/v8.92", "GetDevice/v0.00", "GetDevices/v6.62", "GetStatus/0x19", "GetTime/silence", "GetStatus/0x19+GetDevice/v6.62"}
+
+func preludeScenario(op *spec.Op, path string, maxLen int, prelude string) e1.Scenario {
+	sc := scenarioP(op, path, maxLen, false, false, 0, prelude)
+	sc.Name += "/after:" + prelude
+	return sc
+}
+
 func scenarioZ(op *spec.Op, path string, maxLen int, lengths bool, burst bool, port uint16) e1.Scenario {
+	return scenarioP(op, path, maxLen, lengths, burst, port, "")
+}
+
+func scenarioP(op *spec.Op, path string, maxLen int, lengths bool, burst bool, port uint16, prelude string) e1.Scenario {
+	inPrelude := false
 	var o *observation
 	args := ops.EchoArgs(op, ops.BaselineReply(op))
 	name := fmt.Sprintf("%s/%s/len<=%d", op.Name, path, maxLen)
@@ -199,6 +216,29 @@ func scenarioZ(op *spec.Op, path string, maxLen int, lengths bool, burst bool, p
 		ctrl := &farm.Controller{Addr: ctrlAddr}
 		ctrl.Respond = func(proto string, request []byte, from string) []farm.Reply {
 			replies := []farm.Reply{}
+			if inPrelude {
+				// a well-formed reply to whatever the prelude asked (firmware version / protocol id per prelude)
+				for i := range spec.Ops {
+					p := &spec.Ops[i]
+					if p.Code != request[1] || p.NoReply || strings.Contains(prelude, p.Name+"/silence") {
+						continue
+					}
+					vals := ops.BaselineReply(p)
+					for _, part := range strings.Split(prelude, "+") {
+						if strings.HasPrefix(part, "GetDevice") && request[1] == 0x94 {
+							var hi, lo int
+							fmt.Sscanf(part[strings.Index(part, "/v")+2:], "%d.%d", &hi, &lo)
+							vals["Version"] = uint16(hi/10<<12 | hi%10<<8 | lo/10<<4 | lo%10)
+						}
+					}
+					d := spec.EncodeReply(p, serial, vals)
+					if request[1] == 0x20 && strings.Contains(prelude, "GetStatus/0x19") {
+						d[0] = 0x19
+					}
+					return []farm.Reply{{Delay: T / 100, Data: d}}
+				}
+				return nil
+			}
 			if lengths {
 				n := vs.Choose(1100, "datagram-length")
 				if n >= 64 {
@@ -240,10 +280,24 @@ func scenarioZ(op *spec.Op, path string, maxLen int, lengths bool, burst bool, p
 		}
 		vs.Net().Env = &farm.Farm{Controllers: []*farm.Controller{ctrl}}
 		u := client(path)
+		if prelude != "" {
+			inPrelude = true
+			for _, part := range strings.Split(prelude, "+") {
+				name := part[:strings.Index(part, "/")]
+				if name == "GetDevices" {
+					ops.InvokeGetDevices(u)
+				} else {
+					p := spec.OpByName(name)
+					ops.Invoke(u, name, serial, ops.EchoArgs(p, ops.BaselineReply(p)))
+				}
+			}
+			inPrelude = false
+		}
+		base, reads0, packets0 := vs.NowNs(), vs.Net().ReadOps, len(vs.Net().Packets)
 		cur.obs = ops.Invoke(u, op.Name, serial, args)
-		cur.returned = vs.NowNs()
-		cur.reads = vs.Net().ReadOps
-		cur.packets = len(vs.Net().Packets)
+		cur.returned = vs.NowNs() - base
+		cur.reads = vs.Net().ReadOps - reads0
+		cur.packets = len(vs.Net().Packets) - packets0
 	}
 
 	check := func(e *vs.Exec) (string, []e1.Viol) {
@@ -359,6 +413,14 @@ func main() {
 		// (not TCP: datagrams arriving together on a stream are one longer read, not a sequence)
 		for _, path := range []string{"broadcast", "udp"} {
 			scenarios = append(scenarios, burstScenario(spec.OpByName(name), path, 3))
+		}
+	}
+	// what the controller said in earlier calls of the same client
+	for _, pre := range preludes {
+		for _, name := range []string{"GetTime", "GetCardByID"} {
+			for _, path := range []string{"broadcast", "udp", "tcp"} {
+				scenarios = append(scenarios, preludeScenario(spec.OpByName(name), path, 2, pre))
+			}
 		}
 	}
 	// the same sequences through a client with a fixed bind port (the driver takes another branch)
